@@ -138,7 +138,9 @@ def score_magnitude(spec, X, length, default="CUSUM"):
     if cls == "L1Cost":
         return p * length * M * float(inner.get("scale", 1.0))
     if cls.startswith("SecondMoment"):
-        return p * (length ** 0.5) * M * M
+        # (the reference evaluates the very same user code on the same data; 1e-3 keeps the comparison meaningful for data on
+        # a huge level, where M^2 is ten orders of magnitude above the score)
+        return 1e-3 * p * (length ** 0.5) * M * M
     return p * length * M * M  # squared-error costs
 
 
